@@ -367,7 +367,8 @@ def run_shard(desc, ctx):
     orig_sc = C.SYNTAX_CONFIG if can_patch else {}
     if desc.get('unknown'):
         for typ, plain in (('markup', 'html'), ('stylesheet', 'css')):
-            for unk in ('nosuch', 'my-syntax'):
+            # (the name of an abbreviation TYPE is not the name of a syntax either: the built-in section of that type holds type defaults, not syntax defaults)
+            for unk in ('nosuch', 'my-syntax', 'stylesheet', 'markup', 'Html'):
                 ctx.ev('unknown-syntax')
                 ctx.mon('oracle:unknown-syntax')
                 a = Config({'type': typ, 'syntax': unk})
@@ -378,10 +379,13 @@ def run_shard(desc, ctx):
                         ctx.violation('unknown-syntax', {'type': typ, 'syntax': unk, 'kind': kind}, {'note': 'differs from type defaults'})
                 ctx.seen(('unk', typ, unk))
         import emmet
-        for typ, ab, plain in (('markup', 'ul>li*2', 'html'), ('stylesheet', 'p10+m0-a', 'css')):
-            ctx.ev('unknown-syntax')
-            if emmet.expand(ab, {'type': typ, 'syntax': 'nosuch'}) != emmet.expand(ab, {'type': typ, 'syntax': plain}):
-                ctx.violation('unknown-syntax', {'type': typ, 'syntax': 'nosuch', 'abbr': ab}, {'note': 'expand differs from type default syntax'})
+        for typ, ab, plain in (('markup', 'ul>li*2', 'html'), ('stylesheet', 'p10+m0-a', 'css'), ('markup', 'p+bd', 'html'), ('stylesheet', 'bd+p', 'css')):
+            for unk in ('nosuch', 'stylesheet', 'markup'):
+                ctx.ev('unknown-syntax')
+                ra = core.call(emmet.expand, ab, {'type': typ, 'syntax': unk})
+                rb = core.call(emmet.expand, ab, {'type': typ, 'syntax': plain})
+                if ra[0] != rb[0] or (ra[0] == 'ok' and ra[1] != rb[1]):
+                    ctx.violation('unknown-syntax', {'type': typ, 'syntax': unk, 'abbr': ab}, {'note': 'expand differs from type default syntax', 'unknown': repr(ra[1])[:120], 'default': repr(rb[1])[:120]})
     else:
         typ, syn = desc['type'], desc['syntax']
         for kind, key, vals in KEYS[typ]:
